@@ -91,11 +91,12 @@ func runProtocol(rc *core.RunCtx) {
 		}
 		check("bootstrap")
 	}
+	sinks := map[string]*actor.PID{}
 	nops := g.Range(1, 8)
 	for op := 0; op < nops; op++ {
 		live := w.live()
 		at := live[g.IntN(len(live))]
-		switch g.Pick(6, 2, 2, 1) {
+		switch g.Pick(6, 2, 2, 1, 2) {
 		case 0: // at hears the announcement of another node and handshakes it
 			o := live[g.IntN(len(live))]
 			if o == at {
@@ -145,6 +146,18 @@ func runProtocol(rc *core.RunCtx) {
 			rc.Scen("op%d: 5s pass", op)
 			settle(5 * time.Second)
 			check("idle")
+		case 4: // a peer's handshake arrives and right behind it the report that the peer is unreachable
+			fake := &hcluster.Member{ID: fmt.Sprintf("F%d", op), Host: fmt.Sprintf("10.88.0.%d:4000", op+1), Kinds: []string{"ka"}}
+			if sinks[at.id] == nil {
+				sinks[at.id] = at.c.Engine().SpawnFunc(func(*actor.Context) {}, "sink")
+			}
+			rc.Scen("op%d: %s gets the handshake of %s (%s) and then the report that %s is unreachable", op, at.id, fake.ID, fake.Host, fake.Host)
+			simrt.Fault("handshake-then-unreachable")
+			at.c.Engine().SendWithSender(actor.NewPID(at.addr, "provider/"+at.id), &hcluster.Handshake{Member: fake}, sinks[at.id])
+			at.c.Engine().BroadcastEvent(actor.RemoteUnreachableEvent{ListenAddr: fake.Host})
+			settle(time.Second)
+			// joined, then left: both reached the provider in that order
+			check("handshake-then-unreachable")
 		}
 	}
 	rc.Nontrivial = true
